@@ -72,6 +72,10 @@ type Case struct {
 	Kind   string `json:"kind"` // trie | derive | sorted
 	Gen    string `json:"gen,omitempty"`
 	Secure bool   `json:"secure,omitempty"`
+	// KeyBuf 1: every key argument of the history (update, delete, get, prove; all handles) is handed over
+	// in ONE caller-owned buffer that is rewritten in place for the next call (binary.PutUint64(buf, i);
+	// tr.Update(buf, v) in a loop); 0: a private copy per call that is scrambled after the call returned
+	KeyBuf int `json:"keybuf,omitempty"`
 	Ops    []Op   `json:"ops,omitempty"`
 	// derive / sorted
 	N    int      `json:"n,omitempty"`
@@ -363,12 +367,12 @@ func checkProofs(rep *hlib.Report, c *Case, u *tut, content map[string][]byte, p
 			cls = "present"
 		}
 		var pl proofList
-		pk := cp(mk)
+		pk := keyArg(mk)
 		err := u.prove(pk, &pl)
 		if !bytes.Equal(pk, mk) {
 			fail(rep, "caller-buffer/prove-wrote-into-argument", fmt.Sprintf("Prove(%x) left its argument as %x", mk, pk), c)
 		}
-		scramble(pk)
+		keyDone(pk)
 		if err != nil {
 			fail(rep, pfx+"proof/prove-error/"+cls, fmt.Sprintf("Prove(%x) failed: %v", mk, err), c)
 			continue
@@ -481,12 +485,39 @@ func scramble(b []byte) {
 	}
 }
 
+// How key arguments reach the code under test.  A key buffer belongs to the caller before and after
+// each call: the callee must neither keep the slice (its bytes change afterwards) nor compare a later
+// key with a slice it kept.  Two disciplines cover both ways a retained slice can show:
+// private copy scrambled after the call (a retained key turns into garbage), and one buffer reused
+// in place for every call (a retained slice silently becomes the NEXT key).
+var keyReuse bool
+var keyArena [512]byte
+
+func keyArg(k []byte) []byte {
+	if keyReuse && len(k) <= len(keyArena) {
+		copy(keyArena[:], k)
+		return keyArena[:len(k)]
+	}
+	return cp(k)
+}
+
+func keyDone(kk []byte) {
+	if !keyReuse {
+		scramble(kk)
+	}
+}
+
 func runTrieCase(rep *hlib.Report, cw *hlib.CaseWriter, c *Case, rng *hlib.Rng, tier string) {
 	defer func() {
 		if r := recover(); r != nil {
 			fail(rep, "panic/trie-history", fmt.Sprintf("panic while running a history: %v", r), c)
 		}
 	}()
+	keyReuse = c.KeyBuf == 1
+	defer func() { keyReuse = false }()
+	if keyReuse {
+		rep.Count("key-buffer:reused-in-place")
+	}
 	hs := []*handle{{u: newTut(c.Secure), content: map[string][]byte{}, touched: map[string]bool{}, last: "DN"}}
 	multi := false
 	for _, o := range c.Ops {
@@ -629,7 +660,7 @@ func runTrieCase(rep *hlib.Report, cw *hlib.CaseWriter, c *Case, rng *hlib.Rng, 
 		}
 		switch o.K {
 		case "upd":
-			kk, vv := cp(o.Key), cp(o.Val)
+			kk, vv := keyArg(o.Key), cp(o.Val)
 			err := u.update(kk, vv)
 			if err != nil {
 				fail(rep, "error/update", fmt.Sprintf("TryUpdate failed: %v", err), c)
@@ -638,7 +669,7 @@ func runTrieCase(rep *hlib.Report, cw *hlib.CaseWriter, c *Case, rng *hlib.Rng, 
 			if !bytes.Equal(kk, o.Key) || !bytes.Equal(vv, o.Val) {
 				fail(rep, "caller-buffer/update-wrote-into-argument", fmt.Sprintf("TryUpdate(%x, %x) left its arguments as (%x, %x)", o.Key, o.Val, kk, vv), c)
 			}
-			scramble(kk) // the key buffer is the caller's again; vv stays with the trie (documented)
+			keyDone(kk) // the key buffer is the caller's again; vv stays with the trie (documented)
 			mk := u.mkey(o.Key)
 			h.touched[string(o.Key)] = true
 			if len(o.Val) == 0 {
@@ -652,7 +683,7 @@ func runTrieCase(rep *hlib.Report, cw *hlib.CaseWriter, c *Case, rng *hlib.Rng, 
 			emit(o.H, fmt.Sprintf("RUpd %s %s", pack(mk), pack(o.Val)))
 			mutated(o.H, "update", i)
 		case "del":
-			kk := cp(o.Key)
+			kk := keyArg(o.Key)
 			err := u.del(kk)
 			if err != nil {
 				fail(rep, "error/delete", fmt.Sprintf("TryDelete failed: %v", err), c)
@@ -661,7 +692,7 @@ func runTrieCase(rep *hlib.Report, cw *hlib.CaseWriter, c *Case, rng *hlib.Rng, 
 			if !bytes.Equal(kk, o.Key) {
 				fail(rep, "caller-buffer/delete-wrote-into-argument", fmt.Sprintf("TryDelete(%x) left its argument as %x", o.Key, kk), c)
 			}
-			scramble(kk)
+			keyDone(kk)
 			mk := u.mkey(o.Key)
 			h.touched[string(o.Key)] = true
 			if _, ok := h.content[string(mk)]; ok {
@@ -671,7 +702,7 @@ func runTrieCase(rep *hlib.Report, cw *hlib.CaseWriter, c *Case, rng *hlib.Rng, 
 			emit(o.H, "RDel "+pack(mk))
 			mutated(o.H, "delete", i)
 		case "get":
-			kk := cp(o.Key)
+			kk := keyArg(o.Key)
 			v, err := u.get(kk)
 			if err != nil {
 				fail(rep, "error/get", fmt.Sprintf("TryGet failed: %v", err), c)
@@ -680,7 +711,7 @@ func runTrieCase(rep *hlib.Report, cw *hlib.CaseWriter, c *Case, rng *hlib.Rng, 
 			if !bytes.Equal(kk, o.Key) {
 				fail(rep, "caller-buffer/get-wrote-into-argument", fmt.Sprintf("TryGet(%x) left its argument as %x", o.Key, kk), c)
 			}
-			scramble(kk)
+			keyDone(kk)
 			mk := u.mkey(o.Key)
 			if !bytes.Equal(v, h.content[string(mk)]) {
 				fail(rep, pfx(o.H)+"content/get", fmt.Sprintf("handle %d: Get(%x) = %x, last write was %x", o.H, o.Key, v, h.content[string(mk)]), c)
@@ -1024,7 +1055,7 @@ func genVal(r *hlib.Rng) []byte {
 func genTrieCase(r *hlib.Rng, id int) *Case {
 	gens := []string{"tiny", "prefix-chain", "shared-prefix", "hash32", "random", "secure"}
 	gen := gens[r.Pick(30, 12, 18, 15, 10, 15)]
-	c := &Case{ID: id, Kind: "trie", Gen: gen, Secure: gen == "secure"}
+	c := &Case{ID: id, Kind: "trie", Gen: gen, Secure: gen == "secure", KeyBuf: id % 2}
 	uni := genUniverse(r, gen)
 	n := 1 + r.Intn(40)
 	if r.Chance(10) {
@@ -1219,6 +1250,21 @@ func corpus() []*Case {
 	add("copy/secure-original-deletes", true, up(sa, b(0xaa, 1)), up(sb2, b(0xbb, 2)), cpy(0), del(sb2))
 	add("copy/secure-copy-deletes", true, up(sa, b(0xaa, 1)), up(sb2, b(0xbb, 2)), cpy(0), on(1, del(sb2)), del(sa))
 	add("copy/secure-three", true, up(sa, big), up(sb2, big), up(sc2, big), cpy(0), del(sc2), on(1, del(sa)), cpy(1), on(2, del(sb2)), on(1, Op{K: "commit", Var: 0}), on(1, del(sc2)))
+	// one key buffer rewritten in place between the calls (a callee that keeps the slice of the previous
+	// call sees the next key in it): get-then-update, update-update, delete, through copies, after commit
+	k32 := func(i byte) []byte { k := bytes.Repeat([]byte{0x11}, 32); k[31] = i; return k }
+	get := func(k []byte) Op { return Op{K: "get", Key: k} }
+	for _, secure := range []bool{true, false} {
+		n0 := len(cs)
+		add("keybuf/get-then-update-other-key", secure, up(k32(1), b(1)), get(k32(1)), up(k32(2), b(2)), get(k32(2)), get(k32(1)))
+		add("keybuf/updates-in-a-loop", secure, up(k32(1), big), up(k32(2), big), up(k32(3), big), up(k32(4), big), Op{K: "commit", Var: 1}, get(k32(3)))
+		add("keybuf/delete-after-get-of-other-key", secure, up(k32(1), b(1)), up(k32(2), b(2)), get(k32(1)), del(k32(2)), get(k32(2)), up(k32(1), b()))
+		add("keybuf/through-a-copy", secure, up(k32(1), b(1)), get(k32(1)), cpy(0), on(1, up(k32(2), b(2))), up(k32(3), b(3)), on(1, del(k32(1))), get(k32(1)))
+		add("keybuf/short-keys", secure, up(b(1), b(1)), up(b(2), b(2)), get(b(1)), del(b(2)), up(b(3, 4), b(3)), up(b(3, 5), big))
+		for _, c := range cs[n0:] {
+			c.KeyBuf = 1
+		}
+	}
 	for i, c := range cs {
 		c.ID = i
 	}
@@ -1304,7 +1350,7 @@ func main() {
 	logger = hlib.QuietLogs()
 	rng := hlib.NewRng(f.Seed)
 	rep := hlib.NewReport("C18", "a case is one trie history (plain or secure trie; inserts, overwrites, deletes through both APIs, empty values, Hash, Commit+reload in 3 variants; in about half of them over up to 4 handles = copies sharing in-memory nodes) "+
-		"checked for structure, content, history independence and Merkle proofs, or one DeriveSha list (StackTrie vs Trie), or one ascending key set (StackTrie vs Trie); "+
+		"checked for structure, content, history independence and Merkle proofs, or one DeriveSha list (StackTrie vs Trie), or one ascending key set (StackTrie vs Trie), or one key/value list fed to a StackTrie whose shape after each insertion is compared with the model; "+
 		"non-trivial = the history deletes a present key, commits or copies and ends non-empty (or has copies) / the list has >= 2 items; distinct by case")
 	cw := hlib.NewCaseWriter(f.Out, "From Coq Require Import List NArith Bool Uint63.\nFrom GQ Require Import Lib.Key Model.C18.\nImport ListNotations.\nLocal Open Scope uint63_scope.\n", "C18.case", 30)
 
@@ -1320,6 +1366,8 @@ func main() {
 			runRangeCase(rep, cw, &c)
 		case "db":
 			runDBCase(rep, cw, &c)
+		case "stack":
+			runStackCase(rep, cw, &c)
 		default:
 			runTrieCase(rep, cw, &c, rng.Fork(), f.Tier)
 		}
@@ -1385,6 +1433,15 @@ func main() {
 		c := genDBCase(rng.Fork(), id)
 		id++
 		runDBCase(rep, cw, c)
+	}
+	// StackTrie: shape after each insertion vs the model, panic verdicts, root vs the full trie
+	for _, c := range stackCorpus(&id) {
+		runStackCase(rep, cw, c)
+	}
+	for i := 0; i < f.N/6+15; i++ {
+		c := genStackCase(rng.Fork(), id)
+		id++
+		runStackCase(rep, cw, c)
 	}
 	cw.Close()
 	rep.Write(f.Out)
